@@ -517,7 +517,164 @@ class Live(Family):
         return f"{case['backend']}({obs['backend_used']}) {'supplied' if case['supplied'] else 'auto'} old-tls client -> {obs['end'].split(':')[0]}; modern {obs['modern'][0]}"
 
 
-FAMILIES = [Versions(), PlaintextModel(), Live()]
+# ------------------------------------------------------------------------------------------------
+# family 4: the real GeminiClient.get / upload against permissive loopback peers, in histories
+# ------------------------------------------------------------------------------------------------
+CLIENT_MODES = {"tofu": 7, "ca": 8, "plain": 9, "tofu_cert": 10, "custom": 9}   # -> row of Gen.contextPaths
+OLD_RANGES = [(1, 1), (1, 2), (2, 2), (0, 2), (0, 1)]
+MODERN_RANGES = [(3, 4), (3, 3), (4, 4), (1, 4), (2, 3), (0, 4)]
+
+
+class ClientHistories(Family):
+    """The client side exercised behaviourally: the real GeminiClient (TOFU with a fresh store, TOFU
+    with a store that already pins the host, TOFU with a client certificate, CA mode, no verification,
+    caller-supplied nauyaca context) fetches from / uploads to ONE host:port whose TLS stack changes
+    from step to step (permissive peer, security level 0, restricted to a version range; optionally
+    resetting the first connection of a step, as an attacker or a broken stack would).  Observed at
+    the peer: every completed handshake with its version and the request bytes that followed."""
+
+    name = "client"
+    parallel = False
+    quick_n = 110
+    thorough_n = 900
+
+    def _shapes(self):
+        out = []
+        for mode in CLIENT_MODES:
+            for op in ("get", "upload"):
+                for old in ((1, 2), (1, 1)):
+                    out.append((mode, op, [(old, False)]))                          # unknown host offers only old versions
+                    out.append((mode, op, [((3, 4), False), (old, False)]))         # visited (pinned) before, then downgraded
+                    out.append((mode, op, [((3, 4), False), (old, True)]))          # ... and the first connection is reset
+                out.append((mode, op, [((1, 2), True)]))
+                out.append((mode, op, [((3, 4), False), ((1, 4), False), ((2, 2), False), ((3, 3), False)]))
+        return out
+
+    def gen(self, rng: random.Random, n: int):
+        count = 0
+        for mode, op, steps in self.share(self._shapes()):
+            yield {"mode": mode, "op": op, "reuse_client": count % 2 == 0,
+                   "steps": [{"lo": r[0], "hi": r[1], "reset_first": rf} for r, rf in steps]}
+            count += 1
+        while count < n:
+            k = rng.randint(1, 4)
+            steps = []
+            for _ in range(k):
+                lo, hi = rng.choice(OLD_RANGES if rng.random() < 0.55 else MODERN_RANGES)
+                steps.append({"lo": lo, "hi": hi, "reset_first": rng.random() < 0.3})
+            yield {"mode": rng.choice(list(CLIENT_MODES)), "op": rng.choice(["get", "get", "upload"]), "reuse_client": rng.random() < 0.5, "steps": steps}
+            count += 1
+
+    def impl(self, case):
+        import os
+        import shutil
+        import tempfile
+        from pathlib import Path
+
+        from nauyaca.client.session import GeminiClient
+        from nauyaca.security.tls import create_client_context
+
+        tmp = tempfile.mkdtemp(prefix="nv-")
+        peer = None
+        old_env = os.environ.get("SSL_CERT_FILE")
+        try:
+            c, k = harness_cert()
+            cf, kf = os.path.join(tmp, "c.pem"), os.path.join(tmp, "k.pem")
+            Path(cf).write_bytes(c)
+            Path(kf).write_bytes(k)
+            peer = tls_live.VersionPeer(cf, kf)
+            url = f"gemini://localhost:{peer.port}/page"
+            mode = case["mode"]
+
+            def make_client():
+                kw = {"timeout": 5.0, "tofu_db_path": Path(tmp) / "tofu.db"}
+                if mode == "tofu":
+                    kw.update(verify_ssl=False, trust_on_first_use=True)
+                elif mode == "tofu_cert":
+                    cc, ck = tls_peer.make_cert("client")
+                    (Path(tmp) / "cc.pem").write_bytes(cc)
+                    (Path(tmp) / "ck.pem").write_bytes(ck)
+                    kw.update(verify_ssl=False, trust_on_first_use=True, client_cert=Path(tmp) / "cc.pem", client_key=Path(tmp) / "ck.pem")
+                elif mode == "ca":
+                    # CA mode verifies the peer against the default trust store: make the harness's certificate
+                    # the trust store (the way a user would, via SSL_CERT_FILE) so that a handshake CAN succeed
+                    os.environ["SSL_CERT_FILE"] = cf
+                    kw.update(verify_ssl=True, trust_on_first_use=False)
+                elif mode == "plain":
+                    kw.update(verify_ssl=False, trust_on_first_use=False)
+                else:   # a context supplied by the caller - one that nauyaca's own factory built
+                    kw.update(ssl_context=create_client_context(), trust_on_first_use=True)
+                return GeminiClient(**kw)
+
+            outcomes = []
+
+            async def go():
+                client = None
+                for i, st in enumerate(case["steps"]):
+                    peer.set_step(i, st["lo"], st["hi"], st["reset_first"])
+                    if client is None or not case["reuse_client"]:
+                        client = make_client()
+                    try:
+                        if case["op"] == "get":
+                            r = await client.get(url)
+                        else:
+                            r = await client.upload(url, b"uploaded-content-" + bytes([65 + i]) * 20, mime_type="text/plain")
+                        outcomes.append(f"ok:{r.status}")
+                    except Exception as e:  # noqa: BLE001
+                        outcomes.append("error:" + type(e).__name__)
+                    await asyncio.sleep(0)
+                    peer.settle()
+
+            asyncio.run(go())
+            peer.settle()
+            steps = []
+            for i, st in enumerate(case["steps"]):
+                ents = [e for e in peer.log if e["step"] == i]
+                steps.append({"completed": [e["hs"] for e in ents if e["hs"] in VERS], "req": [e["req"] for e in ents if e["hs"] in VERS],
+                              "attempts": [e["hs"].split(":")[0] for e in ents], "outcome": outcomes[i] if i < len(outcomes) else "?"})
+            return {"steps": steps}
+        finally:
+            if peer:
+                peer.close()
+            if old_env is None:
+                os.environ.pop("SSL_CERT_FILE", None)
+            else:
+                os.environ["SSL_CERT_FILE"] = old_env
+            shutil.rmtree(tmp, ignore_errors=True)
+
+    def model(self, case):
+        return f"tlsvers {CLIENT_MODES[case['mode']]} " + " ".join(f"{s['lo']} {s['hi']}" for s in case["steps"])
+
+    def expect(self, case, out):
+        if not out.startswith("ok "):
+            return {"model": out}
+        vs = out[3:].split(",")
+        # the client makes ONE connection per request: a reset first connection ends the request
+        return {"steps": [{"completed": ([] if (v == "none" or st["reset_first"]) else [v])} for v, st in zip(vs, case["steps"])]}
+
+    def same(self, expected, obs):
+        if "model" in expected:
+            return False
+        return [s["completed"] for s in expected["steps"]] == [s["completed"] for s in obs["steps"]]
+
+    def oracle(self, case, obs):
+        for i, (st, o) in enumerate(zip(case["steps"], obs["steps"])):
+            for v, req in zip(o["completed"], o["req"]):
+                if v in ("ssl3", "tls10", "tls11"):
+                    hist = " -> ".join(f"{VERS[s['lo']]}..{VERS[s['hi']]}{' (first connection reset)' if s['reset_first'] else ''}" for s in case["steps"][:i + 1])
+                    return (f"client-old-tls-{case['mode']}",
+                            f"GeminiClient.{case['op']} ({case['mode']} mode, {'same client object' if case['reuse_client'] else 'new client, same TOFU store'}) completed a {v} "
+                            f"handshake with the peer in step {i + 1} of the history [{hist}] and sent {req} request bytes to it (connection attempts in that step: {o['attempts']})")
+        return None
+
+    def key(self, case, obs):
+        def cls(s):
+            return ("old" if s["hi"] <= 2 else "modern" if s["lo"] >= 3 else "old+modern") + ("/reset-first" if s["reset_first"] else "")
+        # (get and upload alternate uniformly; at most 40 classes are printed)
+        return f"{case['mode']}: " + " > ".join(cls(s) for s in case["steps"][:2]) + (" > ..." if len(case["steps"]) > 2 else "")
+
+
+FAMILIES = [Versions(), PlaintextModel(), Live(), ClientHistories()]
 
 if __name__ == "__main__":
     if "--write-tls" in sys.argv:
